@@ -514,6 +514,12 @@ class TorControlProtocol(LineOnlyReceiver):
         keys = [strargs[i] for i in range(0, len(strargs), 2)]
         values = [strargs[i] for i in range(1, len(strargs), 2)]
 
+        for k in keys:
+            if not k or any(c in k for c in ' \t\r\n="'):
+                d = defer.Deferred()
+                d.errback(ValueError("Invalid configuration key %r" % (k,)))
+                return d
+
         def maybe_quote(s):
             # a QuotedString (with C-style escapes) is needed for
             # anything Tor wouldn't read back as a single bare word
